@@ -78,6 +78,9 @@ def shards(tier, seed):
                    seq=[binprog.mk('seq', c, ('S', 2), ('S', 2), 1)[0] for c in
                         [spaces.cfg_pqr(2, 0, 1), spaces.NAMED['2DPGA'], spaces.cfg_pqr(2, 0, 1)] +
                         [spaces.cfg_sig([1, -1], basis=b) for b in spaces.all_bases(2)] + [spaces.cfg_sig([1, -1])]]))
+    # the metric given as floats (a numpy float array): exact coefficients must stay exact
+    for sg in ([1.0, -1.0], [1.0, 1.0, 0.0], [-1.0, 1.0, 1.0]):
+        sh += mk('float-valued signatures with 20-digit integer coefficients', {'signature': sg, 'float_signature': True}, ('S', 2), ('S', 2), 1, bigint=True)
     return sh
 
 
@@ -139,12 +142,42 @@ def check_pair(alg, cfg, ka, kb, res, stratum, grid=False):
         res.sample({'config': cfg_name(cfg), 'keys_a': list(ka), 'keys_b': list(kb), 'reference': show(exp)})
 
 
+def check_bigint(alg, cfg, ka, kb, res, stratum):
+    big = 10 ** 20
+    va = [big + 3 * i + 1 for i in range(len(ka))]
+    vb = [-big + 7 * i + 2 for i in range(len(kb))]
+    res.evals += 1
+    exp = {}
+    for i, x in zip(ka, va):
+        for j, y in zip(kb, vb):
+            s = int(alg.signs[i, j])
+            if s:
+                exp[i ^ j] = exp.get(i ^ j, 0) + s * x * y
+    case = {'shard': dict(stratum=stratum, cfg=cfg, left=['list', [list(ka)]], right=['list', [list(kb)]], chunk=(0, 1), bigint=True)}
+    try:
+        got, dup = mvdict(nmv(alg, ka, va) * nmv(alg, kb, vb))
+    except Exception as e:
+        res.violate(violation('gp:float-signature:raises', f'gp {cfg_name(cfg)} keys {ka} x {kb} with 20-digit integers raises {type(e).__name__}: {e}', case, show(exp), repr(e)))
+        return
+    if any(got.get(k, 0) != exp.get(k, 0) for k in set(got) | set(exp)):
+        res.violate(violation('gp:float-signature:inexact', f'gp {cfg_name(cfg)} (metric given as floats) keys {ka} x {kb}: exact 20-digit integer coefficients come back inexact',
+                              case, show(exp), show(got)))
+
+
 def run_shard(shard):
     if 'seq' in shard:
         from ..common import run_sequence
         return run_sequence(run_shard, shard)
     res = Result()
     cfg = shard['cfg']
+    if cfg.get('float_signature'):
+        import numpy as np
+        from kingdon import Algebra
+        alg = Algebra(signature=np.array(cfg['signature'], dtype=float))
+        for ka, kb in binprog.pairs(shard, alg):
+            check_bigint(alg, cfg, ka, kb, res, shard['stratum'])
+            check_pair(alg, cfg, ka, kb, res, shard['stratum'])
+        return res.asdict()
     alg = make_algebra(cfg)
     for ka, kb in binprog.pairs(shard, alg):
         check_pair(alg, cfg, ka, kb, res, shard['stratum'], grid=shard.get('grid', False))
